@@ -315,6 +315,13 @@ theorem not_mutual_of_ne (h : IsMutual adj mu n) {g g' : List Nat}
   by_contra hc
   exact hne (group_eq_of_mutual h hg hg' hi hj (by simpa using hc))
 
+/-- Two different groups of the sequence have no common member. -/
+theorem groups_disjoint_of_ne (h : IsMutual adj mu n) {g g' : List Nat}
+    (hg : g ∈ (sequenceOf adj mu n).flatten) (hg' : g' ∈ (sequenceOf adj mu n).flatten)
+    (hne : g ≠ g') : ∀ i ∈ g, i ∉ g' := by
+  intro i hi hi'
+  exact hne (group_eq_of_mutual h hg hg' hi hi' ((group_is_class h hg hi i).1 hi))
+
 /-- The flattened sequence is a topological order of the groups: no edge goes from a group to a
     group listed before it. -/
 theorem sequenceOf_topological (h : IsMutual adj mu n) :
